@@ -1,0 +1,72 @@
+//go:build verif
+// +build verif
+
+package scanner
+
+import (
+	"reflect"
+	"unsafe"
+
+	"github.com/jrivets/log4g"
+)
+
+// VerifDescM is VerifDesc plus the unpersisted "the last scan did not find the file" flag of a descriptor. The flag is
+// reached by name through reflection, so that this file builds whether or not desc has it: without the field Missed is
+// ignored on input and false on output (verification harness, tag verif).
+type VerifDescM struct {
+	VerifDesc
+	Missed bool
+}
+
+func verifMissedField(d *desc) (reflect.Value, bool) {
+	f := reflect.ValueOf(d).Elem().FieldByName("missed")
+	if !f.IsValid() || f.Kind() != reflect.Bool {
+		return reflect.Value{}, false
+	}
+	return reflect.NewAt(f.Type(), unsafe.Pointer(f.UnsafeAddr())).Elem(), true
+}
+
+// VerifDescHasMissed reports whether desc has the flag at all.
+func VerifDescHasMissed() bool {
+	_, ok := verifMissedField(&desc{})
+	return ok
+}
+
+// VerifMergeDescsAll runs the real Scanner.mergeDescs and reports the WHOLE result: first the ids of `new` in its
+// order, then the descriptors of `old` that are in the result although `new` does not have their id, in the order of
+// `old`; for each whether it is the old object.
+func VerifMergeDescsAll(old []VerifDescM, new []VerifDesc) (res []VerifDescM, keptOld []bool) {
+	s := &Scanner{logger: log4g.GetLogger("scanner")}
+	o, n := make(descs), make(descs)
+	for _, d := range old {
+		x := &desc{Id: d.Id, File: d.File, Offset: d.Offset, LastSeenSize: d.LastSeenSize}
+		if f, ok := verifMissedField(x); ok {
+			f.SetBool(d.Missed)
+		}
+		o[d.Id] = x
+	}
+	for _, d := range new {
+		n[d.Id] = &desc{Id: d.Id, File: d.File, Offset: d.Offset, LastSeenSize: d.LastSeenSize}
+	}
+	m := s.mergeDescs(o, n)
+	out := func(id string) {
+		md, ok := m[id]
+		if !ok {
+			return
+		}
+		v := VerifDescM{VerifDesc: VerifDesc{Id: md.Id, File: md.File, Offset: md.getOffset(), LastSeenSize: md.getLastSeenSize()}}
+		if f, ok := verifMissedField(md); ok {
+			v.Missed = f.Bool()
+		}
+		res = append(res, v)
+		keptOld = append(keptOld, md == o[id])
+		delete(m, id)
+	}
+	for _, d := range new {
+		out(d.Id)
+	}
+	for _, d := range old {
+		out(d.Id)
+	}
+	return
+}
